@@ -7,6 +7,8 @@ package main
 import (
 	"fmt"
 	"go/types"
+	"sort"
+	"strings"
 
 	"golang.org/x/tools/go/ssa"
 )
@@ -40,6 +42,10 @@ func (w *Worker) hashUF(alg string, in []*Term) []*Term {
 	}
 	// injectivity against earlier applications on this path
 	for _, prev := range w.hashApps[key] {
+		if w.prog.hashNoInj {
+			// only congruence (built into the UF); sound for proving equalities of digests
+			break
+		}
 		same := true
 		var eqIn []*Term
 		for i := range in {
@@ -56,6 +62,25 @@ func (w *Worker) hashUF(alg string, in []*Term) []*Term {
 			eqOut = append(eqOut, c.Eq(prev.out[i], words[i]))
 		}
 		w.addPC(c.Implies(c.And(eqOut...), c.And(eqIn...)))
+	}
+	if !w.prog.hashNoInj {
+		// digests of inputs of different lengths differ as well
+		var keys []string
+		for k2 := range w.hashApps {
+			if k2 != key && strings.HasPrefix(k2, alg+"/") {
+				keys = append(keys, k2)
+			}
+		}
+		sort.Strings(keys)
+		for _, k2 := range keys {
+			for _, prev := range w.hashApps[k2] {
+				var eqOut []*Term
+				for i := range words {
+					eqOut = append(eqOut, c.Eq(prev.out[i], words[i]))
+				}
+				w.addPC(c.Not(c.And(eqOut...)))
+			}
+		}
 	}
 	if len(w.hashApps[key]) < 64 {
 		w.hashApps[key] = append(w.hashApps[key], hashApp{in: in, out: words})
@@ -101,7 +126,7 @@ func init() {
 	reg("crypto/sha256.New", func(w *Worker, fr *frame, a []Value, fn *ssa.Function) Value {
 		return w.newHash("sha256")
 	})
-	reg("crypto/sha256.Sum256", func(w *Worker, fr *frame, a []Value, fn *ssa.Function) Value {
+	regIfAbsent("crypto/sha256.Sum256", func(w *Worker, fr *frame, a []Value, fn *ssa.Function) Value {
 		d := w.hashUF("sha256", w.bytesOf(a[0].(SliceV), "sha256 input"))
 		arr := &ArrayV{E: make([]Value, 32)}
 		for i := range d {
